@@ -1,0 +1,55 @@
+//go:build verif
+
+package packet
+
+import "time"
+
+// Verification hooks: compiled only with -tags verif. They expose unexported
+// state to the model-based verification harness and never change behaviour.
+
+// VerifEmit, when set by a test harness, receives one event per instrumented
+// linearisation point. It is nil unless a harness installs a sink.
+var VerifEmit func(ev string, kv ...interface{})
+
+// VerifGate, when set by a test harness, is called at named scheduling points and may block.
+var VerifGate func(name string)
+
+func verifEmit(ev string, kv ...interface{}) {
+	if f := VerifEmit; f != nil {
+		f(ev, kv...)
+	}
+}
+
+func verifGate(name string) {
+	if f := VerifGate; f != nil {
+		f(name)
+	}
+}
+
+// VerifPurge runs the session ageing pass with a caller supplied clock.
+func (h *Session) VerifPurge(now time.Time) error { return h.purge(now) }
+
+// VerifPingWaiters returns the number of registered ping waiters and the next echo id.
+func VerifPingWaiters() (n int, nextID uint16) {
+	icmpTable.Lock()
+	defer icmpTable.Unlock()
+	return len(icmpTable.table), icmpTable.id
+}
+
+// VerifPingWaiterIDs returns the ids of the registered ping waiters.
+func VerifPingWaiterIDs() []uint16 {
+	icmpTable.Lock()
+	defer icmpTable.Unlock()
+	ids := make([]uint16, 0, len(icmpTable.table))
+	for id := range icmpTable.table {
+		ids = append(ids, id)
+	}
+	return ids
+}
+
+// VerifHostDirty returns the host's pending-notification flag under the row lock.
+func VerifHostDirty(host *Host) bool {
+	host.MACEntry.Row.RLock()
+	defer host.MACEntry.Row.RUnlock()
+	return host.dirty
+}
